@@ -91,17 +91,18 @@ PROPS['C12'] = {
 
 PROPS['C17'] = {
     'level': 'proof',
-    'units': ['C17/rank_select'],
+    'units': ['C17/rank_select', 'C17/wavelet'],
     'kani': [],
     'oracle': 'C17',
     'decided': ['RankSelect::new builds both superblock tables (entry q == number of t-bits before bit q*s, First exactly at the start of a run) for every k >= 1 and bit vector',
                 'rank_1(i) == Some(#ones in 0..=i) iff i < n; rank_0(i) == Some(#zeros in 0..=i) iff i < n; rank == rank_1; get',
                 'select_1(j) / select_0(j) / select: Some(p) => bit p has the selected value and exactly j such bits lie in 0..=p; None => j == 0 or j exceeds the number of such REAL bits (padding of the last byte is never selected) - proved through select_x generically in the two closures, for both bit values',
-                'hence rank and select are mutually inverse (lemma over the two contracts)', 'SuperblockRank::cmp is the order by (value, variant)'],
-    'undecided': ['WaveletMatrix (covered only by the bounded stand-in)'],
-    'trusted': ['bv::BitVec<u8> model (bits, get_block with zero padding, block_len, len, get_bit)', 'u8::count_ones/count_zeros specs', '[T]::binary_search spec over an uninterpreted sort key equated (one admitted axiom) with the key the real cmp is proved to implement', 'ceil_div8 stub for the float ceil (exact below 2^53)'],
-    'level_text': 'Verus proves RankSelect end to end (constructor, both rank functions, both select functions incl. the padding corner) against naive counting over a bit-vector model; the wavelet matrix is not decided by contracts.',
-    'level_note': 'Trusted: bv::BitVec model, popcount and binary_search std specs, float ceil stub; wavelet matrix undecided.',
+                'hence rank and select are mutually inverse (lemma over the two contracts)', 'SuperblockRank::cmp is the order by (value, variant)',
+                'WaveletMatrix (unit C17/wavelet; build_partlevel, new, check_overflow, prank, rank on the real code): new() builds, level by level, the stable partition of the text by code bit 2, 1, 0 (bit vectors, zero counts); rank(c, p) equals, for EVERY text the matrix represents, the number of symbols among text[0..=p] whose DNA2INT code equals that of c (block-of-matching-elements invariant per level; all 128 table entries <= 7 by computation), with no index/overflow failure for texts of 1..2^47 symbols below 128'],
+    'undecided': [],
+    'trusted': ['bv::BitVec<u8> model (bits, get_block with zero padding, block_len, len, get_bit)', 'u8::count_ones/count_zeros specs', '[T]::binary_search spec over an uninterpreted sort key equated (one admitted axiom) with the key the real cmp is proved to implement', 'ceil_div8 stub for the float ceil (exact below 2^53)', 'wavelet unit: the RankSelect contracts proved in C17/rank_select are restated on an opaque stub (new / rank_0 / rank_1) and used modularly; bv::BitVec::new_fill and BitsMut::set_bit model; <[T]>::to_vec std spec'],
+    'level_text': 'Verus proves RankSelect end to end (constructor, both rank functions, both select functions incl. the padding corner) against naive counting over a bit-vector model, and the wavelet matrix (construction and rank) against occurrence counting, using the RankSelect contracts modularly.',
+    'level_note': 'Trusted: bv::BitVec model, popcount and binary_search std specs, float ceil stub.',
 }
 
 PROPS['C09'] = {
